@@ -202,6 +202,8 @@ class Env:
                 self.defs[pat["id"]] = init
             elif not refutable:
                 self.opaque[pat["id"]] = init
+        elif k == "PRef":
+            self._bind(pat["pat"], init, refutable)
         elif k == "PTuple":
             i0 = strip(init)
             if i0.get("k") == "Tup" and len(i0["elems"]) == len(pat["pats"]):
@@ -301,13 +303,14 @@ def pat_names(p):
 class Sym:
     """Normal form builder."""
 
-    def __init__(self, env, facts=None, depth=12, through=False):
+    def __init__(self, env, facts=None, depth=12, through=False, keep=()):
         """through=True also substitutes single-assignment lets whose initialiser reads `&mut` state (the value *at the
         definition*): for rules that ask where a value comes from, not what it equals at a later point."""
         self.env = env
         self.facts = facts
         self.depth = depth
         self.through = through
+        self.keep = set(keep)        # local names never substituted (kept as variables) even when single-assignment
 
     def __call__(self, n, d=0):
         return self.sym(n, d)
@@ -327,6 +330,8 @@ class Sym:
             r = to.get("res")
             if r == "local":
                 lid = to["id"]
+                if to["name"] in self.keep:
+                    return ("var", to["name"])
                 if self.env.is_single(lid):
                     return s(self.env.defs[lid])
                 if self.through and lid in self.env.opaque and self.env.assigned.get(lid, 0) == 0:
@@ -515,6 +520,9 @@ def guards_of(target, root, sym):
                             ec = exit_condition(s0, sym)
                             if ec is not None and ec != ("lit", True):
                                 out.append(("if", ec, False))
+                if k == "SLet" and c is p.get("els") and p.get("init") is not None:
+                    # inside the `else` block of a let-else: the pattern did not match
+                    out.append(("if", ("let", pat_key(p["pat"]), sym(p["init"]), tuple(pat_names(p["pat"]))), False))
                 if k == "If":
                     if c is p.get("then"):
                         for a in conj(sym(p["cond"])):
@@ -1152,6 +1160,21 @@ def fold(t, assume, discr=None, helpers=None):
                             return ("lit", r)
                 except TypeError:
                     pass
+            if op == "*":
+                for x_, y_ in ((a, b), (b, a)):
+                    if x_ == ("lit", 0):
+                        return ("lit", 0)
+                    if x_ == ("lit", 1):
+                        return y_
+                    if x_ == ("lit", -1):
+                        return f(("neg", y_))
+            if op == "+":
+                if a == ("lit", 0):
+                    return b
+                if b == ("lit", 0):
+                    return a
+            if op == "-" and b == ("lit", 0):
+                return a
             if op == "&&":
                 if a == ("lit", False) or b == ("lit", False):
                     return ("lit", False)
@@ -1198,6 +1221,9 @@ def fold(t, assume, discr=None, helpers=None):
                     m_ = {}
                     if sc[0] == "ctor" and isinstance(binds, tuple) and len(binds) == len(sc[2]):
                         m_ = {("var", nm): v for nm, v in zip(binds, sc[2]) if nm}
+                    if sc[0] == "struct" and isinstance(binds, dict):
+                        fv = dict(sc[2])
+                        m_ = {("var", nm): fv[fld] for fld, nm in binds.items() if nm and fld in fv}
                     if g is not None:
                         gg = f(subst(g, m_) if m_ else g)
                         if gg == ("lit", False):
@@ -1223,6 +1249,8 @@ def fold(t, assume, discr=None, helpers=None):
                 return ("lit", CHAR_FNS[ck](args[0][1]))
             if ck in BOOL_CHAR_FNS and args and args[0][0] == "lit" and isinstance(args[0][1], str):
                 return ("lit", BOOL_CHAR_FNS[ck](args[0][1]))
+            if ck.endswith("::abs") and len(args) == 1 and args[0][0] == "lit" and isinstance(args[0][1], int) and not isinstance(args[0][1], bool):
+                return ("lit", abs(args[0][1]))
             if ck.endswith("::to_string") and len(args) == 1 and args[0][0] == "lit" and not isinstance(args[0][1], bool):
                 return ("lit", str(args[0][1]))
             if ck.endswith(("String::as_str", "::as_ref", "Deref>::deref", "::borrow")) and len(args) == 1 and args[0][0] == "lit" \
@@ -1398,6 +1426,25 @@ def nf_leaves(t, conds=()):
     if h == "ctor" and len(t[2]) == 1 and str(t[1]).endswith(("::Some", "::Ok")):
         return nf_leaves(t[2][0], conds)
     return [(t, conds)]
+
+
+def guards_term(guards, rest=("lit", True), skip=None):
+    """One term for "all these lexical guards hold" (innermost last): `if let PAT = e` guards become
+    `match e { PAT => <rest>, _ => false }` so that case folding can decide them and bind their names."""
+    term = rest
+    for x in reversed(list(guards)):
+        if skip is not None and skip(x):
+            continue
+        if x[0] == "if" and isinstance(x[1], tuple) and x[1][:1] == ("let",):
+            if x[2] is True:
+                term = ("match", x[1][2], ((x[1][1], None, term), ("_", None, ("lit", False))))
+            else:
+                term = ("bin", "&&", ("match", x[1][2], ((x[1][1], None, ("lit", False)), ("_", None, ("lit", True)))), term)
+        elif x[0] == "if":
+            term = ("bin", "&&", x[1] if x[2] else ("not", x[1]), term)
+        elif x[0] == "arm" and isinstance(x[1], tuple) and not (x[1][0] == "call" and str(x[1][1]).endswith(("IntoIterator::into_iter", "Iterator::next"))):
+            term = ("match", x[1], ((x[2], None, term), ("_", None, ("lit", False))))
+    return term
 
 
 def lift_ifs(t, limit=64):
